@@ -76,5 +76,7 @@ def check(ctx, rep):
     _n11.norm_11(ctx, rep)      # prefix part columns: first-line state does not leak into later lines
     from ..rules import normr as _n13
     _n13.norm_13(ctx, rep)      # a prefix is split with a start position computed from its own leaf
+    from ..rules import dar as _idx1
+    _idx1.idx_1(ctx, rep, ['parso/python/pep8.py', 'parso/normalizer.py', 'parso/python/errors.py'])     # no constant index into a freshly filtered list
     rep.note('Not decided: positions inside the file, non-negative columns, equality of issue lists across fresh / '
              'incremental / cached trees.')
